@@ -47,6 +47,7 @@ structure Rel (π : Ren) (P : String → Bool) (s s' : St) : Prop where
   globals : s'.globals = s.globals
   out : s'.out = s.out
   imports : s'.imports = s.imports
+  mode : s'.locals.isSome = s.locals.isSome
   isLocal : ∀ x, P x = true → s'.isLocal (π x) = s.isLocal x
   lget : ∀ x, P x = true → s.isLocal x = true →
     (s'.locals.bind (fun l => l.get (π x))) = (s.locals.bind (fun l => l.get x))
@@ -83,10 +84,12 @@ theorem Rel.assign {π : Ren} {P : String → Bool} {s s' : St} (h : Rel π P s 
   have hloc := h.isLocal x hx
   by_cases hl : s.isLocal x = true
   · have hl' : s'.isLocal (π x) = true := by rw [hloc]; exact hl
-    refine ⟨?_, ?_, ?_, ?_, ?_, ?_, h.inj⟩
+    refine ⟨?_, ?_, ?_, ?_, ?_, ?_, ?_, h.inj⟩
     · unfold St.assign; simp only [hl, hl', if_true]; exact h.globals
     · unfold St.assign; simp only [hl, hl', if_true]; exact h.out
     · unfold St.assign; simp only [hl, hl', if_true]; exact h.imports
+    · rw [locals_assign_local s x v hl, locals_assign_local s' (π x) v hl']
+      simp only [Option.isSome_map]; exact h.mode
     · intro y hy; rw [isLocal_assign, isLocal_assign]; exact h.isLocal y hy
     · intro y hy hly
       rw [isLocal_assign] at hly
@@ -117,10 +120,11 @@ theorem Rel.assign {π : Ren} {P : String → Bool} {s s' : St} (h : Rel π P s 
   · have hlf : s.isLocal x = false := by simpa using hl
     have hl' : s'.isLocal (π x) = false := by rw [hloc]; exact hlf
     have hfix := h.fixed x hx hlf
-    refine ⟨?_, ?_, ?_, ?_, ?_, ?_, h.inj⟩
+    refine ⟨?_, ?_, ?_, ?_, ?_, ?_, ?_, h.inj⟩
     · unfold St.assign; simp only [hlf, hl', Bool.false_eq_true, if_false]; rw [hfix, h.globals]
     · unfold St.assign; simp only [hlf, hl', Bool.false_eq_true, if_false]; exact h.out
     · unfold St.assign; simp only [hlf, hl', Bool.false_eq_true, if_false]; exact h.imports
+    · unfold St.assign; simp only [hlf, hl', Bool.false_eq_true, if_false]; exact h.mode
     · intro y hy; rw [isLocal_assign, isLocal_assign]; exact h.isLocal y hy
     · intro y hy hly
       rw [isLocal_assign] at hly
@@ -132,7 +136,7 @@ theorem Rel.assign {π : Ren} {P : String → Bool} {s s' : St} (h : Rel π P s 
 theorem Rel.withOut {π : Ren} {P : String → Bool} {s s' : St} (h : Rel π P s s') (f : List String → List String)
     (g : List String → List String) :
     Rel π P { s with out := f s.out, imports := g s.imports } { s' with out := f s'.out, imports := g s'.imports } := by
-  refine ⟨h.globals, ?_, ?_, ?_, ?_, ?_, h.inj⟩
+  refine ⟨h.globals, ?_, ?_, h.mode, ?_, ?_, ?_, h.inj⟩
   · show f s'.out = f s.out; rw [h.out]
   · show g s'.imports = g s.imports; rw [h.imports]
   · intro y hy; exact h.isLocal y hy
@@ -507,6 +511,26 @@ theorem simpleExec_ren {π : Ren} {P : String → Bool} {s s' : St} (h : Rel π 
       by_cases hk : knownExcs.contains n = true
       · simp only [hk, if_true]; exact ⟨rfl, h⟩
       · simp only [hk, Bool.false_eq_true, if_false]; trivial
+  case annAssign tg ann v simple =>
+    simp only [renStmt, simpleExec, nameOf_ren, h.mode]
+    simp only [namesS, List.all_append, Bool.and_eq_true] at hn
+    by_cases hc : (s.locals.isSome && simple) = true
+    · simp only [hc, if_true]
+      cases hx : nameOf tg with
+      | none => trivial
+      | some p =>
+        obtain ⟨x, c⟩ := p
+        have htg : tg = .name x c := by
+          cases tg <;> simp [nameOf] at hx
+          obtain ⟨h1, h2⟩ := hx; subst h1; subst h2; rfl
+        subst htg
+        have hPx : P x = true := by simpa [namesE] using hn.1.1
+        cases v with
+        | none => exact h
+        | some e =>
+          simp only [Option.map_some, renO]
+          exact evalThen_ren h hs e (by simpa [namesO, okE] using hn.2) _ _ (fun w => h.assign x hPx w)
+    · simp only [hc, Bool.false_eq_true, if_false]; trivial
   all_goals (simp only [renStmt, simpleExec]; trivial)
 
 
@@ -581,7 +605,7 @@ def fnP (ps : List String) (b : List Stmt) : String → Bool := fun x => (fnName
 
 theorem Rel.back {π : Ren} {P : String → Bool} {s s' : St} (h : Rel π P s s') (g : Env) (out imps : List String) :
     Rel π P { s with globals := g, out := out, imports := imps } { s' with globals := g, out := out, imports := imps } := by
-  refine ⟨rfl, rfl, rfl, ?_, ?_, ?_, h.inj⟩
+  refine ⟨rfl, rfl, rfl, h.mode, ?_, ?_, ?_, h.inj⟩
   · intro y hy; exact h.isLocal y hy
   · intro y hy hly; exact h.lget y hy hly
   · intro y hy hly; exact h.fixed y hy hly
